@@ -221,6 +221,7 @@ def traces(
     max_traces: int = 50000,
     with_exit: bool = True,
     stop: Callable[[Node], bool] | None = None,
+    env: dict | None = None,
 ) -> set[tuple]:
     """All distinct sequences of symbols along paths from start to an exit.
 
@@ -237,39 +238,79 @@ def traces(
         s = symbol(n)
         if s is not None:
             sym[n.id] = s
-    relevant = set(sym) | set(exits)
+    # correlated branches: tests on a plain local boolean (`if flag:` ... `if flag:`) must agree along one path
+    corr_test: dict[int, tuple[str, bool]] = {}
+    for n in g.nodes:
+        if n.kind == "test" and n.ast is not None:
+            e, neg = n.ast, False
+            while isinstance(e, ast.UnaryOp) and isinstance(e.op, ast.Not):
+                e, neg = e.operand, not neg
+            if isinstance(e, ast.Name):
+                corr_test[n.id] = (f"{id(n.func.node)}:{e.id}", neg)
+    corr_names = {v for v, _ in corr_test.values()}
+    corr_store: dict[int, str] = {}
+    for n in g.nodes:
+        if n.kind == "store" and n.target is not None and f"{id(n.func.node)}:{n.target}" in corr_names:
+            corr_store[n.id] = f"{id(n.func.node)}:{n.target}"
+    relevant = set(sym) | set(exits) | set(corr_test) | set(corr_store)
 
-    nxt_cache: dict[int, list[int]] = {}
+    nxt_cache: dict[int, list[tuple[int, str]]] = {}
 
-    def nxt(x: int) -> list[int]:
+    def nxt(x: int) -> list[tuple[int, str]]:
+        """(next relevant node, kind of the first edge leaving x on that way)"""
         if x in nxt_cache:
             return nxt_cache[x]
-        out: list[int] = []
-        seen: set[int] = set()
-        todo = [x]
-        while todo:
-            a = todo.pop()
-            for y, k in g.succ[a]:
-                if k not in kinds or y in seen:
-                    continue
-                seen.add(y)
-                if y in relevant:
-                    out.append(y)
-                else:
-                    todo.append(y)
-        nxt_cache[x] = sorted(set(out))
+        out: set[tuple[int, str]] = set()
+        verdict0 = None
+        if env is not None and g.nodes[x].kind == "test" and isinstance(g.nodes[x].ast, ast.AST):
+            verdict0 = eval_cond(g.nodes[x].ast, env, g.nodes[x].func)
+        for y0, k0 in g.succ[x]:
+            if k0 not in kinds:
+                continue
+            if (verdict0 is True and k0 == "F") or (verdict0 is False and k0 == "T"):
+                continue
+            if y0 in relevant:
+                out.add((y0, k0))
+                continue
+            seen: set[int] = {y0}
+            todo = [y0]
+            while todo:
+                a = todo.pop()
+                verdict = None
+                if env is not None and g.nodes[a].kind == "test" and isinstance(g.nodes[a].ast, ast.AST):
+                    verdict = eval_cond(g.nodes[a].ast, env, g.nodes[a].func)
+                for y, k in g.succ[a]:
+                    if k not in kinds or y in seen:
+                        continue
+                    if (verdict is True and k == "F") or (verdict is False and k == "T"):
+                        continue
+                    seen.add(y)
+                    if y in relevant:
+                        out.add((y, k0))
+                    else:
+                        todo.append(y)
+        nxt_cache[x] = sorted(out)
         return nxt_cache[x]
 
     results: set[tuple] = set()
-    # iterative DFS with visit counts
-    stack: list[tuple[int, tuple, dict]] = [(start, (), {})]
+    # iterative DFS with visit counts and a valuation of correlated local booleans
+    stack: list[tuple[int, tuple, dict, tuple]] = [(start, (), {}, ())]
     steps = 0
     while stack:
-        x, tr, counts = stack.pop()
+        x, tr, counts, val = stack.pop()
         steps += 1
         if steps > 2_000_000:
             raise AnalysisError(f"trace enumeration exploded in {g.func.qualname}")
-        for y in nxt(x):
+        for y, k0 in nxt(x):
+            nval = val
+            if x in corr_test and k0 in ("T", "F"):
+                name, neg = corr_test[x]
+                outcome = (k0 == "T") != neg
+                d = dict(val)
+                if name in d and d[name] != outcome:
+                    continue
+                d[name] = outcome
+                nval = tuple(sorted(d.items()))
             if y in exits:
                 results.add(tr + ((exits[y],) if with_exit else ()))
                 continue
@@ -278,11 +319,13 @@ def traces(
                 continue
             nc = dict(counts)
             nc[y] = c + 1
-            ntr = tr + (sym[y],)
-            if stop is not None and stop(g.nodes[y]):
+            if y in corr_store:
+                nval = tuple((a, b) for a, b in nval if a != corr_store[y])
+            ntr = tr + ((sym[y],) if y in sym else ())
+            if y in sym and stop is not None and stop(g.nodes[y]):
                 results.add(ntr + (("$stop",) if with_exit else ()))
                 continue
-            stack.append((y, ntr, nc))
+            stack.append((y, ntr, nc, nval))
         if len(results) > max_traces:
             raise AnalysisError(f"more than {max_traces} distinct traces in {g.func.qualname}")
     return results
@@ -336,7 +379,27 @@ def cond_atoms(e: ast.AST) -> list[str]:
     return seen
 
 
-def eval_cond(e: ast.AST, env: dict) -> bool | None:
+def _single_local_def(func, name: str):
+    if func is None:
+        return None
+    defs = []
+    for n in ast.walk(func.node):
+        if isinstance(n, ast.Assign) and len(n.targets) == 1 and isinstance(n.targets[0], ast.Name) and n.targets[0].id == name:
+            defs.append(n.value)
+        elif isinstance(n, ast.AnnAssign) and isinstance(n.target, ast.Name) and n.target.id == name and n.value is not None:
+            defs.append(n.value)
+        elif isinstance(n, (ast.AugAssign, ast.NamedExpr)) and isinstance(n.target, ast.Name) and n.target.id == name:
+            defs.append(None)
+        elif isinstance(n, (ast.For, ast.AsyncFor, ast.comprehension)) and any(isinstance(t, ast.Name) and t.id == name for t in ast.walk(n.target)):
+            defs.append(None)
+        elif isinstance(n, ast.arg) and n.arg == name:
+            defs.append(None)
+    if len(defs) == 1 and defs[0] is not None:
+        return defs[0]
+    return None
+
+
+def eval_cond(e: ast.AST, env: dict, func=None) -> bool | None:
     """Three-valued evaluation of a condition under `env`.
 
     env maps canonical atom text -> bool, and optionally ("ord", x_text, y_text) -> "lt" | "eq" | "gt"
@@ -346,12 +409,12 @@ def eval_cond(e: ast.AST, env: dict) -> bool | None:
     if isinstance(e, ast.Constant):
         return bool(e.value)
     if isinstance(e, ast.NamedExpr):
-        return eval_cond(e.value, env)
+        return eval_cond(e.value, env, func)
     if isinstance(e, ast.UnaryOp) and isinstance(e.op, ast.Not):
-        v = eval_cond(e.operand, env)
+        v = eval_cond(e.operand, env, func)
         return None if v is None else (not v)
     if isinstance(e, ast.BoolOp):
-        vals = [eval_cond(v, env) for v in e.values]
+        vals = [eval_cond(v, env, func) for v in e.values]
         if isinstance(e.op, ast.And):
             if any(v is False for v in vals):
                 return False
@@ -391,6 +454,11 @@ def eval_cond(e: ast.AST, env: dict) -> bool | None:
     v = env.get(key)
     if v is None:
         v = _env_fn(env, key, e)
+    if v is None and isinstance(e, ast.Name):
+        # a local boolean with a single definition: evaluate its defining expression
+        d = _single_local_def(func, e.id)
+        if d is not None and not (isinstance(d, ast.Name) and d.id == e.id):
+            return eval_cond(d, env, None)
     return v
 
 
@@ -415,7 +483,7 @@ def reach_under(g: CFG, env: dict, kinds=NORMAL_KINDS + ("raise",), start: int |
         n = g.nodes[x]
         verdict = None
         if n.kind == "test" and isinstance(n.ast, ast.AST):
-            verdict = eval_cond(n.ast, env)
+            verdict = eval_cond(n.ast, env, n.func)
         for y, k in g.succ[x]:
             if k not in kinds or y in blocked or y in seen:
                 continue
